@@ -40,7 +40,6 @@ Definition sk_eqb (a b : sk) : bool :=
   match a, b with SNone, SNone | SOpen, SOpen | SClosed, SClosed => true | _, _ => false end.
 
 Definition stopped_core g := negb (running g) && negb (shreq g) && negb (mref g) && mt_ended (mt g) && negb (sock_open (sock g)).
-Definition loop_pc (m : mpc) := match m with M_acq | M_chk | M_recv => true | _ => false end.
 Definition running_core g := running g && negb (shreq g) && mref g && loop_pc (mt g) && sock_open (sock g).
 Definition stopping_core g :=
   running g && shreq g &&
